@@ -238,6 +238,10 @@ func (ab *rulesPair) adaptGroup(lb []string) []change {
 			lb[0] = "/infra/domains/default/groups/" + gb.Id
 			return addGroup(gb)
 		}
+	} else if ga := getGroup(lb[0], ab.a.groups); ga != nil {
+		// Leave group unchanged that isn't defined by Netspoc,
+		// but is referenced by new rule.
+		ga.needed = true
 	}
 	return nil
 }
